@@ -1,81 +1,22 @@
+//! scratch probes (not registered: no @prop tag)
 use super::util::*;
-use std::sync::{Arc, atomic::AtomicBool};
-type Tx = tokio::sync::mpsc::UnboundedSender<hr::VPortReceiveMsg>;
-enum PA { A { r: tokio::sync::oneshot::Sender<u8> }, B { t: Option<Tx>, x: bool, m: Arc<std::sync::Mutex<(u32, u32)>> } }
-enum PB { A { r: tokio::sync::oneshot::Sender<u8> }, B { t: Option<Tx>, x: bool, f: Arc<AtomicBool> } }
-#[repr(u8)]
-enum PC { A { r: tokio::sync::oneshot::Sender<u8> }, B { p: u32, t: Option<Tx>, x: bool, y: bool, z: bool, w: bool } }
-enum PD { A { r: tokio::sync::oneshot::Sender<u8> }, B { m: Arc<std::sync::Mutex<(u32, Option<bool>, Vec<u8>)>>, t: Option<Tx>, n: Arc<std::sync::Mutex<Option<Vec<u8>>>> } }
+use std::task::Poll;
 
+with_lean_model! {
 #[kani::proof]
-#[kani::unwind(4)]
-fn c99_tmp_a() {
-    let (tx, mut rx) = tokio::sync::mpsc::unbounded_channel();
-    let mut ps = PA::B { t: Some(tx), x: false, m: Arc::new(std::sync::Mutex::new((0, 16))) };
-    let ok = match &mut ps { PA::B { t: Some(tx), .. } => tx.send(hr::VPortReceiveMsg::Finished).is_ok(), _ => false };
-    assert!(ok);
-    let item = rx_pop_raw(&mut rx);
-    assert!(matches!(item, RxItem::Finished));
-    std::mem::forget((ps, rx, item));
+#[kani::unwind(5)]
+#[kani::stub(alloc::fmt::format, empty_format)]
+#[kani::stub(<crate::chmux::PortNumber as std::ops::Drop>::drop, noop_port_number_drop)]
+fn c99_r11_close() {
+    let (evt_tx, mut evt_rx) = tokio::sync::mpsc::channel(4);
+    let (data_tx, data_rx) = tokio::sync::mpsc::unbounded_channel();
+    let (mon, returner) = hc::monitor_pair(16);
+    let mut rx = hr::receiver_new(11, 77, 8, 4, evt_tx, data_rx, returner, hp::allocator_new(8), hst::storage_new());
+    let res = { let mut slot = Slot::new(rx.close()); slot.poll() };
+    assert!(res.is_ready());
+    assert!(hr::receiver_flags(&rx).0);
+    assert!(matches!(pop_evt(&mut evt_rx), Evt::ReceiverClosed { local_port: 11 }));
+    tokio::model::forget_tasks();
+    std::mem::forget((rx, data_tx, evt_rx, mon, res));
 }
-
-#[kani::proof]
-#[kani::unwind(4)]
-fn c99_tmp_b() {
-    let (tx, mut rx) = tokio::sync::mpsc::unbounded_channel();
-    let mut ps = PB::B { t: Some(tx), x: false, f: Arc::new(AtomicBool::new(false)) };
-    let ok = match &mut ps { PB::B { t: Some(tx), .. } => tx.send(hr::VPortReceiveMsg::Finished).is_ok(), _ => false };
-    assert!(ok);
-    let item = rx_pop_raw(&mut rx);
-    assert!(matches!(item, RxItem::Finished));
-    std::mem::forget((ps, rx, item));
-}
-
-#[kani::proof]
-#[kani::unwind(4)]
-fn c99_tmp_c() {
-    let (tx, mut rx) = tokio::sync::mpsc::unbounded_channel();
-    let mut ps = PC::B { p: 7, t: Some(tx), x: false, y: false, z: false, w: false };
-    let ok = match &mut ps { PC::B { t: Some(tx), .. } => tx.send(hr::recv_msg_finished()).is_ok(), _ => false };
-    assert!(ok);
-    let item = rx_pop_raw(&mut rx);
-    assert!(matches!(item, RxItem::Finished));
-    std::mem::forget((ps, rx, item));
-}
-
-#[kani::proof]
-#[kani::unwind(4)]
-fn c99_tmp_d() {
-    let (tx, mut rx) = tokio::sync::mpsc::unbounded_channel();
-    let mut ps = PD::B { m: Arc::new(std::sync::Mutex::new((1, None, Vec::new()))), t: Some(tx), n: Arc::new(std::sync::Mutex::new(Some(Vec::new()))) };
-    let ok = match &mut ps { PD::B { t: Some(tx), .. } => tx.send(hr::VPortReceiveMsg::Finished).is_ok(), _ => false };
-    assert!(ok);
-    let item = rx_pop_raw(&mut rx);
-    assert!(matches!(item, RxItem::Finished));
-    std::mem::forget((ps, rx, item));
-}
-
-#[kani::proof]
-#[kani::unwind(4)]
-fn c99_tmp_e() {
-    let (tx, mut rx) = tokio::sync::mpsc::unbounded_channel();
-    let mut ps = PB::B { t: Some(tx), x: false, f: Arc::new(AtomicBool::new(false)) };
-    let v = hr::VPortReceiveMsg::Finished;
-    let ok = match &mut ps { PB::B { t, .. } => { let tx = t.as_ref().unwrap(); tx.send(v).is_ok() }, _ => false };
-    assert!(ok);
-    let item = rx_pop_raw(&mut rx);
-    assert!(matches!(item, RxItem::Finished));
-    std::mem::forget((ps, rx, item));
-}
-#[kani::proof]
-#[kani::unwind(4)]
-fn c99_tmp_f() {
-    // data frame instead of Finished
-    let (tx, mut rx) = tokio::sync::mpsc::unbounded_channel();
-    let mut ps = PB::B { t: Some(tx), x: false, f: Arc::new(AtomicBool::new(false)) };
-    let ok = match &mut ps { PB::B { t: Some(tx), .. } => tx.send(hr::recv_msg_data(bytes::Bytes::from_static(b"ab"), true, false, 2)).is_ok(), _ => false };
-    assert!(ok);
-    let item = rx_pop_raw(&mut rx);
-    assert!(matches!(item, RxItem::Data { first: true, last: false, credit: 2, .. }));
-    std::mem::forget((ps, rx, item));
 }
